@@ -107,6 +107,14 @@ Definition as_bool (r : relflag) : option bool :=
 Definition pd_int64index (s : seq) : res (list Z) :=
   match s with SElems l => coerce_all l | SBadDim => Err end.
 
+(* _contains_strings(values): helper of the proposed fix for F-C02-1 (notes/C02-fix-1.diff); only
+   used by the regenerated code once that fix is applied *)
+Definition seq_has_str (s : seq) : bool :=
+  match s with
+  | SElems l => existsb (fun n => match n with NStr => true | _ => false end) l
+  | SBadDim => false
+  end.
+
 (* ---- construction: _check_values + __init__ ------------------------------------------------ *)
 
 (* tail of _check_values on an index: duplicates rejected, then sorted *)
